@@ -29,6 +29,10 @@ from .tracecheck import validate
 # --------------------------------------------------------------------------- the real system
 
 
+class NeverReturns(Exception):
+    pass
+
+
 class TeeSys:
     def __init__(self, L, n, srclen, susp, uselock, exitsusp=0, closable=True, census=False):
         self.L = L
@@ -193,7 +197,7 @@ class TeeSys:
     def closeall(self):
         live = [c for c in self.cs if self.cs[c] in ("unstarted", "idle")]
         self.current = 0
-        r = Task(self.tee.aclose(), self.acct).run()
+        r = self.run_close(self.tee.aclose())
         if r[0] == "raised":
             self.ev(e="error", c=0, what="Tee.aclose:" + type(r[1]).__name__)
         for c in live:
@@ -205,6 +209,20 @@ class TeeSys:
         if c not in self._children:
             self._children[c] = self.tee[c - 1]
         return self._children[c]
+
+    def run_close(self, aw):
+        """A close that keeps waiting (for a lock somebody else holds, say) never returns: an observation, not a crash."""
+        t = Task(aw, self.acct)
+        try:
+            return t.run(limit=2000)
+        except RuntimeError as ex:
+            if "does not terminate" not in str(ex):
+                raise
+            try:
+                t.throw(Cancelled("stop"))
+            except BaseException:  # noqa: BLE001
+                pass
+            return ("raised", NeverReturns("the close keeps waiting"))
 
     def busy(self):
         return [c for c in sorted(self.cs) if self.cs[c] in ("lockwait", "insrc", "exiting", "foreign")]
@@ -249,7 +267,7 @@ class TeeSys:
             self.fail_next = False
         elif a == "close":
             started = self.ever_started[c]
-            r = Task(self.child(c).aclose(), self.acct).run()
+            r = self.run_close(self.child(c).aclose())
             if r[0] == "raised":
                 self.ev(e="error", c=c, what="aclose:" + type(r[1]).__name__)
                 self.cs[c] = "error"
